@@ -1,11 +1,11 @@
 /-
 Model of `typhon/geographical.py :: to_kilometers, GeoIndex.__init__, GeoIndex.query`
-and `typhon/utils/common.py :: split_units` (after the `fix:` commits be2111b, 32e5cb2,
+and `typhon/utils/common.py :: split_units` (after the `fix:` commits be2111b, 32e5cb2, 0f512db,
 8cd8847).  Core Lean only (no Mathlib) so that the driver links.
 
 Python:
 
-    UNITS_CONVERSION_FACTORS = [[{"cm","centimeter","centimeters"}, 1e-6], [{"m",..}, 1e-3],
+    UNITS_CONVERSION_FACTORS = [[{"cm","centimeter","centimeters"}, 1e-5], [{"m",..}, 1e-3],
         [{"km",..}, 1], [{"mi","mile","miles"}, 1.609344], [{"yd","yds","yard","yards"}, 0.9144e-3],
         [{"ft","foot","feet"}, 0.3048e-3]]
 
@@ -172,7 +172,7 @@ def splitUnits (s : List Char) : PF × List Char := splitUnitsFrom s s.length
 
 /-- `UNITS_CONVERSION_FACTORS` with the Python float literals read as exact decimals -/
 def unitTable : List (List String × Rat) :=
-  [ (["cm", "centimeter", "centimeters"], (1 : Rat) / 1000000),
+  [ (["cm", "centimeter", "centimeters"], (1 : Rat) / 100000),
     (["m", "meter", "meters"], (1 : Rat) / 1000),
     (["km", "kilometer", "kilometers"], 1),
     (["mi", "mile", "miles"], (1609344 : Rat) / 1000000),
